@@ -73,6 +73,7 @@ type config struct {
 	Never  []string   `json:"never"`
 	Bound  int        `json:"bound"`
 	Full   bool       `json:"full"`
+	Nilok  *bool      `json:"nilok"` // "nil iff no reportable failure" is judged (nil = yes)
 }
 
 type step struct {
@@ -80,6 +81,7 @@ type step struct {
 	Arg  int    `json:"arg"`
 	Chk  bool   `json:"chk"`
 	Held []int  `json:"held"`
+	Run  string `json:"run"` // "blocked": the Run of a worker group must not have returned yet
 }
 
 type behaviour struct {
@@ -304,10 +306,10 @@ func (w *world) start() {
 	switch c.C {
 	case "pp":
 		wk := fun.SliceIterator(vals).ProcessParallel(proc, opts...)
-		w.runOp = rt.Start(-1, func() any { w.res = wk.Run(w.ctx); return nil })
+		w.runOp = rt.Start(-1, func() any { w.res = wk.Run(w.ctx); w.rec.Log(rt.Event{"ev": "returned"}); return nil })
 	case "pfe":
 		src := fun.SliceIterator(vals)
-		w.runOp = rt.Start(-1, func() any { w.res = itertool.ParallelForEach(w.ctx, src, proc, opts...); return nil })
+		w.runOp = rt.Start(-1, func() any { w.res = itertool.ParallelForEach(w.ctx, src, proc, opts...); w.rec.Log(rt.Event{"ev": "returned"}); return nil })
 	case "worker":
 		var ops []fun.Worker
 		for _, i := range seq(1, c.N) {
@@ -315,7 +317,7 @@ func (w *world) start() {
 			ops = append(ops, func(context.Context) error { return w.call(i) })
 		}
 		src := fun.SliceIterator(ops)
-		w.runOp = rt.Start(-1, func() any { w.res = itertool.Worker(w.ctx, src, opts...); return nil })
+		w.runOp = rt.Start(-1, func() any { w.res = itertool.Worker(w.ctx, src, opts...); w.rec.Log(rt.Event{"ev": "returned"}); return nil })
 	case "map":
 		drain(fun.Map(fun.SliceIterator(vals), func(_ context.Context, v int) (int, error) {
 			if err := w.call(v - inBase); err != nil {
@@ -538,6 +540,23 @@ func replay(in input) (result map[string]any) {
 					"item %d failed (%s) in abort mode while every other user function was held, and a further item (%d) was started: the failing worker did not stop",
 					st.Arg, f.Kind, w.entered[len(w.entered)-1]))
 			}
+		case "cancel":
+			// the caller cancels its context (0) / the consumer closes the output (1) while user functions are held
+			w.rec.Log(rt.Event{"ev": "cancel", "mode": st.Arg})
+			if st.Arg == 1 && w.out != nil {
+				it := w.out
+				rt.Start(-3, func() any { return it.Close() })
+			} else {
+				w.cancel()
+			}
+			if err := w.settle(); err != nil {
+				return inconclusive("no quiescence after cancel")
+			}
+			if st.Run == "blocked" && w.runOp.Done() && len(w.heldNow()) > 0 {
+				return fail(k, "cancel/run-returned-while-callback-held", fmt.Sprintf(
+					"the caller's context was cancelled while the user functions of items %v were still running, and Run returned (%v) without waiting for them: whatever they return is lost",
+					w.heldNow(), w.res))
+			}
 		case "drain":
 			for round := 0; round <= cfg.N+1; round++ {
 				h := w.heldNow()
@@ -568,6 +587,11 @@ func replay(in input) (result map[string]any) {
 	}
 	if !over {
 		return inconclusive("schedule without a drain step")
+	}
+	if w.out != nil {
+		// the errors of the stage are reported by Close() of the output: read it (again) now that every user
+		// function has returned
+		w.res = w.out.Close()
 	}
 	w.rec.Log(w.resultEvent())
 
@@ -652,7 +676,7 @@ func replay(in input) (result map[string]any) {
 	if mustSeen && w.resNil() {
 		return fail(last, "nil-despite-failure", "the result is nil although a reportable failure occurred")
 	}
-	if !mustSeen && !anySeen && !w.resNil() {
+	if !mustSeen && !anySeen && !w.resNil() && (cfg.Nilok == nil || *cfg.Nilok) {
 		return fail(last, "non-nil-without-failure", fmt.Sprintf("the result is %v although no reportable failure occurred", w.res))
 	}
 	// outputs: only results of successful items, each at most once
